@@ -20,7 +20,7 @@ def run(ctx):
 LEVEL = "fault_enumeration"
 META = {
     "level": "fault_enumeration",
-    "text": "TLC checks ServerConn.tla for every interleaving of admission and close steps (ExactlyOneDisconnect, NoResidue; the NoRecheck deviation - the code before fix F11 - must violate). On a real server every termination cause (client close, raw CLOSE, Disconnect(true/false), client namespace disconnect, garbage, packet for an unjoined namespace, second CONNECT, server close, TCP cut, ping timeout) is produced at each phase (idle, burst, inside a middleware, before CONNECT, during the upgrade) and the websocket stream is cut after every k-th byte of a scripted session in both directions; after each run the trace (hook records + handler records + residue snapshot through the public API + HTTP probe of the old session id) must follow ServerConnTrace.tla: close body once, disconnect handlers exactly once with an allowed reason, nothing left in namespace, rooms, connection store or Engine.IO store, no event after disconnect.",
+    "text": "TLC checks ServerConn.tla for every interleaving of admission and close steps (ExactlyOneDisconnect, NoResidue; the NoRecheck deviation - the code before fix F11 - must violate). On a real server every termination cause (client close, raw CLOSE, Disconnect(true/false), client namespace disconnect, garbage, packet for an unjoined namespace, second CONNECT, server close, TCP cut, ping timeout) is produced at each phase (idle, burst, inside a middleware, before CONNECT, during the upgrade) and the websocket stream is cut after every k-th byte of a scripted session in both directions; after each run the trace (hook records + handler records + residue snapshot through the public API + HTTP probe of the old session id) must follow ServerConnTrace.tla: close body once, disconnect handlers exactly once with an allowed reason, nothing left in namespace, rooms, connection store or Engine.IO store, no event after disconnect. The connection handlers join and leave rooms (on the namespaces other than '/' every room, the socket's own included) and the quiescence record carries the number of keys and memberships left in both indexes of every adapter (guarded export), which the trace specification requires to be 0.",
     "note": "Trusted: byte-cutting TCP proxy of the harness; allowed-reason table read off the code; 1 s ping settings for the ping-timeout case.",
     "technique": "TLA+/TLC model checking + fault enumeration (cause x phase x cut point) with trace validation",
     "design_ref": "DESIGN.md 4.6, 5 (C06)",
